@@ -205,6 +205,22 @@ class CloneWorld:
         um = self.p.fresh_uuid()
         return self.verb("Mutate", jn, names=["d"], values=[self.fn(self.ref(t, ub, "b"), self.ref(al, amap[us], "s"))], uuids=[um])
 
+    def sample_foreign_refs(self):
+        """the tree after `collect()` / `transfer_col_references`: the source is a new table that *kept the column identities*
+        of its origin, and the expressions above it still use the origin's column objects - references whose table node is
+        not part of the tree.  They denote the new source's columns by identity, and must do so in the clone."""
+        origin = self.leaf("t", ["a", "b"])
+        ua, ub = origin.attrs["cols"]["a"].attrs["_uuid"], origin.attrs["cols"]["b"].attrs["_uuid"]
+        new = self.leaf("t", ["a", "b"])
+        new.attrs["cols"]["a"].attrs["_uuid"], new.attrs["cols"]["b"].attrs["_uuid"] = ua, ub  # identities preserved
+        um = self.p.fresh_uuid()
+        mut = self.verb("Mutate", new, names=["m"], values=[self.fn(self.ref(origin, ua, "a"), self.ref(new, ub, "b"))], uuids=[um])
+        fil = self.verb("Filter", mut, predicates=[self.fn(self.ref(origin, ub, "b"), self.lit(0))])
+        grp = self.verb("GroupBy", fil, group_by=[self.ref(origin, ua, "a")], add=False)
+        arr = self.verb("Arrange", grp, order_by=[self.order(self.ref(origin, ub, "b"))])
+        us = self.p.fresh_uuid()
+        return self.verb("Mutate", arr, names=["w"], values=[self.fn(self.ref(mut, um, "m"), partition_by=[self.ref(origin, ua, "a")])], uuids=[us])
+
     # ---- reference reading of a tree (plain Python over the stub objects) -------------------------------------------
     @staticmethod
     def nodes(root):
